@@ -282,8 +282,9 @@ fn cmd_check(args: &Args) -> i32 {
     // minimisation is bounded per class (60 s) and per check (240 s): once the check's budget is
     // spent the remaining classes are still written as exact replay files, just not shrunk
     let minimise_t0 = Instant::now();
+    let no_minimise = std::env::var("DRIVER_NO_MINIMISE").is_ok();
     let class_budget = |t0: &Instant| -> u64 {
-        if t0.elapsed().as_secs() > 240 {
+        if no_minimise || t0.elapsed().as_secs() > 240 {
             0
         } else {
             60
